@@ -118,7 +118,9 @@ func VerifyProof(root, key *felt.Felt, proof *ProofNodeSet, hash crypto.HashFn) 
 			return felt.Zero, fmt.Errorf("proof node not found, expected hash: %s", expected.String())
 		}
 
-		nHash, _ := h.hash(node)
+		// Recompute the node's hash from its content: the cached hash travels with the
+		// (untrusted) proof node and must not be taken for the node's hash.
+		_, nHash := h.proofHash(node)
 
 		// Verify the hash matches
 		hashVal := felt.Felt(*nHash.(*trienode.HashNode))
